@@ -71,6 +71,13 @@ def descent_check(rep, fn, cmp_is, key_name, data_pred):
         rep.ob("C12.2", fn, "descent", True, "comparator (search key, node key, data); < 0 goes left, > 0 goes right", fn.loc[0])
 
 
+def field_of(e):
+    e = strip_casts(e)
+    if e is not None and e["k"] == "member":
+        return e["field"]
+    return None
+
+
 def run(prog, rep):
     rep.rule("C12.1", "dispatch: every PTreeType enumerator has a case whose insert/remove/node_free triple comes from one variant unit; the range test covers exactly the enumerators")
     rep.rule("C12.2", "orientation agreement: every descent loop (lookup, three inserts, three removes) calls the comparator as (search key, node key, data) and goes left on < 0, right on > 0")
@@ -328,11 +335,118 @@ def run(prog, rep):
     rep.ob("C12.5", fe, "threads", ok5, "thread/unthread are counted on %s; early return only with the counter zero; no callback after a stop request" % counter if ok5 else msg5, fe.loc[0])
     rep.floor("C12.5", 2)
 
+    # ---- C12.6 link surgery ----------------------------------------------------------------------
+    rep.rule("C12.6", "link surgery: a child link replaced under the test `parent->F == node` is parent->F on the true edge and the other link on the false edge; "
+                      "the node substituted for a two-children node is reached by one step to one side and then steps to the other side until that link is NULL; "
+                      "in the parent-linked variants the descent records the owner of every slot it steps into and the new node's parent link is that owner")
+    nrel = npred = nown = 0
+    for (un, tag) in VARIANTS:
+        u = prog.unit(un)
+        for fn in u.functions.values():
+            # (a) relink side agreement
+            for blk in fn.blocks.values():
+                c = blk.cond
+                if c is None or len(blk.succs) != 2:
+                    continue
+                cs = strip_casts(c)
+                if cs is None or cs["k"] != "bin" or cs["op"] not in ("==", "!="):
+                    continue
+                side = None
+                for opnd in (cs["l"], cs["r"]):
+                    m = strip_casts(opnd)
+                    if m is not None and m["k"] == "member" and m["field"] in ("left", "right"):
+                        side = m
+                if side is None:
+                    continue
+                base = guards.key(side["base"])
+                firsts = {}
+                for (to, on) in blk.succs:
+                    for st_ in fn.blocks[to].stmts:
+                        if st_["k"] == "asg":
+                            l = strip_casts(st_["l"])
+                            if l is not None and l["k"] == "member" and l["field"] in ("left", "right") and guards.key(l["base"]) == base:
+                                firsts[on] = (l["field"], st_)
+                            break
+                if set(firsts) != {"true", "false"}:
+                    continue
+                nrel += 1
+                eq_edge = "true" if cs["op"] == "==" else "false"
+                other = "false" if eq_edge == "true" else "true"
+                okr = firsts[eq_edge][0] == side["field"] and firsts[other][0] != side["field"]
+                rep.ob("C12.6", fn, "relink:%d" % line(c), okr, "`%s` selects %s on the equal edge and the other link otherwise" % (show(c), side["field"]) if okr else
+                       "line %d: under `%s` the equal edge stores into ->%s and the other edge into ->%s: the replacement is hung on the wrong side (the node is lost or a sibling subtree is overwritten)" % (
+                           line(c), show(c), firsts[eq_edge][0], firsts[other][0]), firsts[eq_edge][1])
+        # (b) predecessor / successor walk in remove
+        fn = u.fn("p_tree_%s_remove" % tag)
+        loops = fn.loops()
+        for hdr, body in loops:
+            hb = fn.blocks[hdr]
+            c = strip_casts(hb.cond) if hb.cond is not None else None
+            if c is None or c["k"] != "bin" or c["op"] != "!=" or cv(c["r"]) != 0:
+                continue
+            m = strip_casts(c["l"])
+            if m is None or m["k"] != "member" or m["field"] not in ("left", "right"):
+                continue
+            wv = root_var(m)
+            steps = [n for (b, i, n) in fn.nodes() if b.id in body and n["k"] == "asg" and strip_casts(n["l"])["k"] == "ref" and strip_casts(n["l"])["name"] == wv]
+            inits = [n for (b, i, n) in fn.nodes() if b.id not in body and n["k"] == "asg" and strip_casts(n["l"])["k"] == "ref" and strip_casts(n["l"])["name"] == wv
+                     and field_of(n["r"]) in ("left", "right") and fn.pos_dominates((b.id, i), (hdr, 0))]
+            if not steps or not inits:
+                continue
+            npred += 1
+            sf = set(field_of(n["r"]) for n in steps)
+            inf = field_of(inits[-1]["r"])
+            okp = sf == {m["field"]} and inf in ("left", "right") and inf != m["field"] and all(root_var(n["r"]) == wv for n in steps)
+            rep.ob("C12.6", fn, "neighbour-walk", okp, "the substitute is reached by one step %s and then %s steps until that link is NULL: the in-order neighbour" % (inf, m["field"]) if okp else
+                   "line %d: the substitute for a two-children node starts with a step ->%s and walks ->%s while ->%s != NULL: that is not the in-order neighbour, the keys end up out of order" % (
+                       line(c), inf, "/".join(sorted(x or "?" for x in sf)), m["field"]), c)
+        # (c) slot owner bookkeeping in insert (variants with parent links)
+        if tag != "bst":
+            fn = u.fn("p_tree_%s_insert" % tag)
+            takes = [(b, i, n) for (b, i, n) in fn.stmts() if n["k"] == "asg" and strip_casts(n["r"]) is not None and strip_casts(n["r"])["k"] == "un" and strip_casts(n["r"])["op"] == "&"
+                     and field_of(strip_casts(n["r"])["e"]) in ("left", "right")]
+            pstores = [n for (b, i, n) in fn.nodes() if n["k"] == "asg" and field_of(n["l"]) == "parent"]
+            oko, msg = bool(takes) and len(pstores) == 1, "no slot step / parent store found"
+            owner = None
+            if oko:
+                pv = strip_casts(pstores[0]["r"])
+                owner = pv["name"] if pv is not None and pv["k"] == "ref" else None
+                if owner is None:
+                    oko, msg = False, "line %d: the new node's parent link is %s, not the recorded owner of the slot" % (line(pstores[0]), show(pstores[0]["r"]))
+            if oko:
+                for (b, i, n) in takes:
+                    slotv = root_var(n["l"])
+                    inner = strip_casts(strip_casts(n["r"])["e"])           # member(left|right) of base
+                    node_expr = guards.key(inner["base"])
+                    prev = [s_ for s_ in b.stmts[:i] if s_["k"] == "asg" and strip_casts(s_["l"])["k"] == "ref" and strip_casts(s_["l"])["name"] == owner]
+                    if not prev or guards.key(prev[-1]["r"]) != node_expr:
+                        oko, msg = False, "line %d: the descent steps into a child slot of %s without recording that node in %s: the new node's parent link will name another node" % (
+                            line(n), node_expr, owner)
+                # initial value: the owner variable starts as the root (or NULL) and the parent store uses it
+                nown += 1
+            rep.ob("C12.6", fn, "slot-owner", oko, "every step into a child slot records the slot's node in %s, which becomes the new node's parent" % owner if oko else msg, pstores[0] if pstores else fn.loc[0])
+    rep.floor("C12.6", 3 + 3 + 2)
+
+
 
 # generic robustness battery: renaming every local/parameter in these files must not change any verdict
 RENAME_LOCALS = ['src/ptree.c', 'src/ptree-bst.c', 'src/ptree-rb.c', 'src/ptree-avl.c']
 
 SELFTEST = [
+    dict(id="rb-pred-walks-left", file="src/ptree-rb.c", expect="C12.6",
+         old="\t\twhile (prev_node->right != NULL)\n\t\t\tprev_node = prev_node->right;", new="\t\twhile (prev_node->left != NULL)\n\t\t\tprev_node = prev_node->left;"),
+    dict(id="avl-pred-from-right", file="src/ptree-avl.c", expect="C12.6",
+         old="\t\tprev_node = cur_node->left;\n\n\t\twhile (prev_node->right != NULL)\n\t\t\tprev_node = prev_node->right;", new="\t\tprev_node = cur_node->right;\n\n\t\twhile (prev_node->right != NULL)\n\t\t\tprev_node = prev_node->right;"),
+    dict(id="rb-relink-sides-swapped", file="src/ptree-rb.c", expect="C12.6",
+         old="\t\tif (child_parent->base.left == cur_node)\n\t\t\tchild_parent->base.left = child_node;\n\t\telse\n\t\t\tchild_parent->base.right = child_node;", new="\t\tif (child_parent->base.left == cur_node)\n\t\t\tchild_parent->base.right = child_node;\n\t\telse\n\t\t\tchild_parent->base.left = child_node;"),
+    dict(id="rb-insert-parent-wrong", file="src/ptree-rb.c", expect="C12.6",
+         old="\t((PTreeRBNode *) *cur_node)->parent = (PTreeRBNode *) parent_node;", new="\t((PTreeRBNode *) *cur_node)->parent = (PTreeRBNode *) *root_node;"),
+    dict(id="avl-insert-owner-not-recorded", file="src/ptree-avl.c", expect="C12.6",
+         old="\t\t} else if (cmp_result > 0) {\n\t\t\tparent_node = *cur_node;\n\t\t\tcur_node    = &(*cur_node)->right;", new="\t\t} else if (cmp_result > 0) {\n\t\t\tcur_node    = &(*cur_node)->right;"),
+    dict(id="avl-successor-instead-of-predecessor-neutral", file="src/ptree-avl.c", expect=None,
+         old="\t\tprev_node = cur_node->left;\n\n\t\twhile (prev_node->right != NULL)\n\t\t\tprev_node = prev_node->right;", new="\t\tprev_node = cur_node->right;\n\n\t\twhile (prev_node->left != NULL)\n\t\t\tprev_node = prev_node->left;"),
+    dict(id="rb-relink-test-right-neutral", file="src/ptree-rb.c", expect=None,
+         old="\t\tif (child_parent->base.left == cur_node)\n\t\t\tchild_parent->base.left = child_node;\n\t\telse\n\t\t\tchild_parent->base.right = child_node;", new="\t\tif (child_parent->base.right == cur_node)\n\t\t\tchild_parent->base.right = child_node;\n\t\telse\n\t\t\tchild_parent->base.left = child_node;"),
     dict(id="avl-remove-directions-swapped", file="src/ptree-avl.c", expect="C12.2",
          old="\t\tif (cmp_result < 0)\n\t\t\tcur_node = cur_node->left;\n\t\telse if (cmp_result > 0)\n\t\t\tcur_node = cur_node->right;",
          new="\t\tif (cmp_result < 0)\n\t\t\tcur_node = cur_node->right;\n\t\telse if (cmp_result > 0)\n\t\t\tcur_node = cur_node->left;"),
